@@ -344,6 +344,21 @@ def run(ctx):
         if k_ == 0:
             trs.append(api_events(ctx, lc, len(trs) + 1, long_, ctx.seed * 1000 + 950))
     trs = [t for t in trs if t["ev"]]
+    # "return an object ...": a move that comes back with an object in none of the many recorded attempts on ordinary sequences --
+    # whatever it raises instead -- does not return what the statement describes.  (Which inputs block swap and clustering refuse,
+    # and with which exception, is otherwise left open; the bounded model has only ties and refusals for them because delta is
+    # constant on chains of five and six residues.)
+    tally = {}
+    for t in trs:
+        for e in t["ev"]:
+            if len(e["parent"]) >= 10:
+                c_ = tally.setdefault(e["move"], [0, 0])
+                c_[0] += 1
+                c_[1] += e["st"] in ("child", "self")
+    ctx.extra["moves_attempted_and_returned_on_chains_of_10+_residues"] = tally
+    for mv, (att, ret) in tally.items():
+        if att >= 20 and ret == 0:
+            ctx.violation("move-never-returns", {"move": mv, "attempts": att}, expected="a rearranged object for at least some ordinary sequences", actual="none in %d attempts" % att)
     verdicts, known = traces.validate(ctx, "Trace_Moves", trs)
     for n in ctx.last_trace_result.tagged.get("NOTE", []):
         c = ctx.extra.setdefault("conformance_notes", {})
